@@ -94,6 +94,10 @@ class BaseSamples:
 
         if self.parameters is None:
             self.parameters = [f"x_{i}" for i in range(self.dims)]
+        elif not isinstance(self.parameters, list):
+            # Names given as a tuple or an array: keep a plain list of str
+            # (compared with ==, written to HDF5 as a list of strings)
+            self.parameters = [str(p) for p in self.parameters]
 
     @property
     def dims(self):
